@@ -74,9 +74,13 @@ func hashContent(h string) string {
 
 func contributor() model.Contributor { return model.Contributor{Name: "v", Email: "v@example.com"} }
 
+// mergeBulk: every split run also uploads that many filler files (same names and contents in every split: they
+// never conflict); with more than 1000 of them every split has several file lists and so has the commit
+var mergeBulk int
+
 // uploadSplit creates (or restarts) a split and uploads the given files.
 func (e *metaEnv) uploadSplit(stores context2.Stores, repo, diamondID, splitID string, files []treeEntry) error {
-	src, _ := e.writeTree(files, 0)
+	src, _ := e.writeTree(files, mergeBulk)
 	sd := model.NewSplitDescriptor(model.SplitID(splitID), model.SplitContributor(contributor()))
 	opts := []core.SplitOption{core.SplitDescriptor(sd), core.SplitConsumableStore(src), core.SplitLogger(zap.NewNop()),
 		core.SplitConcurrentFileUploads(e.conc)}
@@ -111,6 +115,9 @@ func (e *metaEnv) retime(repo, diamondID string, ts map[string]int) error {
 		}
 		for i := range be.BundleEntries {
 			rank, ok := ts[apc.SplitID+"\x00"+be.BundleEntries[i].NameWithPath]
+			if !ok && strings.HasPrefix(be.BundleEntries[i].NameWithPath, "bulk/") {
+				continue // filler files: identical in every split, their times do not matter
+			}
 			if !ok {
 				return fmt.Errorf("no time for %s %s", apc.SplitID, be.BundleEntries[i].NameWithPath)
 			}
@@ -134,7 +141,10 @@ func mergeReplay(args []string) error {
 	work := fl.String("work", "", "scratch directory")
 	seed := fl.Uint64("seed", 1, "seed")
 	sched := fl.Bool("sched", true, "force the arrival order of the split file lists")
+	bulk := fl.Int("bulk", 0, "filler files uploaded by every split run")
+	smallPages := fl.Bool("small-pages", false, "commits list the splits with page sizes 1, 2, 3, 5 (and the default) in turn")
 	_ = fl.Parse(args)
+	mergeBulk = *bulk
 	res := vutil.NewResult("merge")
 	run := func(i int, line []byte, r *vutil.BehResult) {
 		var c mergeCase
@@ -196,7 +206,13 @@ func mergeReplay(args []string) error {
 			core.DiamondMessage("commit"), core.DiamondLogger(zap.NewNop()))
 		d.BundleDescriptor.LeafSize = uint32(*lambda)
 		errC := make(chan error, 1)
-		go func() { errC <- d.Commit() }()
+		var copts []core.Option
+		if *smallPages {
+			if b := []int{0, 1, 2, 3, 5}[i%5]; b > 0 {
+				copts = append(copts, core.BatchSize(b))
+			}
+		}
+		go func() { errC <- d.Commit(copts...) }()
 		if *sched {
 			// keys of the held gets, by split
 			for _, sid := range c.Order {
@@ -273,6 +289,11 @@ func mergeReplay(args []string) error {
 		for _, x := range c.Expected.Extras {
 			exp[x.Dir+"/"+x.Split+"/"+x.Path] = e.contentKey(hashContent(x.Hash))
 		}
+		if len(c.Versions) > 0 || len(c.Empties) > 0 {
+			for k := 0; k < mergeBulk; k++ {
+				exp[bulkName(k)] = e.contentKey(fmt.Sprintf("bulk%05d", k%7))
+			}
+		}
 		var keys []string
 		for k := range exp {
 			keys = append(keys, k)
@@ -322,7 +343,7 @@ func mergeReplay(args []string) error {
 					continue
 				}
 				_ = sid
-				src, _ := e.writeTree(files, 0)
+				src, _ := e.writeTree(files, mergeBulk)
 				pb := e.newBundle(ostores, repo, "", src)
 				if err := core.Upload(context.Background(), pb); err != nil {
 					bad("merge/plain-upload-error", "ok", err.Error(), "")
